@@ -14,7 +14,9 @@ import re
 FIELDS_EXPECTED = ["Z-Symbol-A", "concentration/half-life", "spin I", "b_c", "bp", "bm", "c",
                    "coherent", "incoherent", "total", "absorption"]
 
-_RE_NUM = re.compile(r"^(<?)([-+]?(?:\d+\.?\d*|\.\d+)(?:[eE][-+]?\d+)?)(\(.*?\))?(\*?)$")
+# <limit, number, optional (uncertainty), optional exponent that applies to value and uncertainty alike
+# (6.0E-6 and 2.4(8)E-5 = (2.4 +- 0.8)e-5), optional * for an estimate
+_RE_NUM = re.compile(r"^(<?)([-+]?(?:\d+\.?\d*|\.\d+))((?:[eE][-+]?\d+)?)(\(.*?\))?((?:[eE][-+]?\d+)?)(\*?)$")
 _RE_ID = re.compile(r"^(\d+)-([A-Za-z]+)(?:-(\d+))?$")
 _RE_HALFLIFE = re.compile(r"^[0-9.eE+]+ [YS]$")
 
@@ -50,64 +52,83 @@ def _comment_block_above(lines, lineno):
     return out[::-1]
 
 
+class Bad(object):
+    """Marker for a cell that is not in a documented notation (evidence for the check, never an exception)."""
+
+    def __init__(self, text):
+        self.text = text
+
+    def __repr__(self):
+        return "Bad(%r)" % (self.text,)
+
+
 def number(cell):
-    """(float or None, marks) ; marks subset of {'<','*','unc','unc-point'}"""
+    """(float, None for a blank cell, or Bad(cell); marks) ; marks subset of {'<','*','unc','unc-point','exponent',...}"""
+    from decimal import Decimal
     if cell == "":
         return None, ()
     m = _RE_NUM.match(cell)
-    if not m:
-        raise ValueError("cell not understood: %r" % cell)
+    if not m or (m.group(3) and m.group(5)):
+        return Bad(cell), ("unreadable",)
     marks = []
     if m.group(1):
         marks.append("<")
-    if m.group(4):
+    if m.group(6):
         marks.append("*")
-    if m.group(3):
-        marks.append("unc-point" if "." in m.group(3) else "unc")
-    if "e" in m.group(2).lower():
-        marks.append("exponent")
-    return float(m.group(2)), tuple(marks)
+    if m.group(4):
+        marks.append("unc-point" if "." in m.group(4) else "unc")
+    exp = m.group(3) or m.group(5)
+    if exp:
+        marks.append("exponent" if m.group(3) else "exponent-after-uncertainty")
+    return float(Decimal(m.group(2) + exp)), tuple(marks)
 
 
 def neutron_tables():
     """
-    dict(rows=[record...], imag={(z, a): (b_c_i, bp_i, bm_i)}, header=[names])
+    dict(rows=[record...], imag={(z, a): (b_c_i, bp_i, bm_i, sym)}, header=[names], problems=[(table, row, reason)])
     record: dict(id, z, sym, a (0 = element row), abundance (float, 0.0 for a half-life, None when blank),
                  halflife (bool), spin (str), b_c, bp, bm, flag (str), coherent, incoherent, total,
-                 absorption, marks (sorted list))
+                 absorption, marks (sorted list), cells {field: text}).  A numeric field may be Bad(text).
+    Rows that cannot be laid out are skipped and listed in problems; nothing is raised for a cell's content.
     """
     raw, tree = _source("nsf")
     lines = raw.decode("latin-1").split("\n")
     node = _assign(tree, "nsftable")
+    problems = []
     block = _comment_block_above(lines, node.lineno)
     header = []
     for k, ln in enumerate(block[:-1]):
         if re.match(r"^# \S", ln) and re.match(r"^#\s{2,}\S", block[k + 1]):
             header.extend(x.strip() for x in ln[2:].split(","))
-    if header != FIELDS_EXPECTED:
-        raise ValueError("column documentation above nsftable reads %r" % (header,))
+    header_from_doc = (header == FIELDS_EXPECTED)
+    if not header_from_doc:
+        header = list(FIELDS_EXPECTED)          # the documented order; a reworded comment is not a data error
     rows = []
     seen = set()
     for ln in ast.literal_eval(node.value).split("\n"):
         cells = ln.split(",")
         if len(cells) != len(header):
-            raise ValueError("row with %d cells: %r" % (len(cells), ln))
+            problems.append(("nsftable", ln, "%d cells instead of %d" % (len(cells), len(header))))
+            continue
         c = dict(zip(header, cells))
         m = _RE_ID.match(c["Z-Symbol-A"])
         if not m:
-            raise ValueError("row id %r" % c["Z-Symbol-A"])
+            problems.append(("nsftable", ln, "first cell is not Z-Symbol[-A]"))
+            continue
         z, sym, a = int(m.group(1)), m.group(2), int(m.group(3) or 0)
         if (z, a) in seen:
-            raise ValueError("row %s twice" % c["Z-Symbol-A"])
+            problems.append(("nsftable", ln, "nuclide listed twice"))
+            continue
         seen.add((z, a))
         marks = set()
-        rec = dict(id=c["Z-Symbol-A"], z=z, sym=sym, a=a, spin=c["spin I"], flag=c["c"])
+        rec = dict(id=c["Z-Symbol-A"], z=z, sym=sym, a=a, spin=c["spin I"], flag=c["c"], cells=c)
         p = c["concentration/half-life"]
         if _RE_HALFLIFE.match(p):
             rec["abundance"], rec["halflife"] = 0.0, True
             marks.add("half-life")
         else:
             rec["abundance"], mk = number(p)
+            marks.update(k for k in mk if k == "unreadable")
             rec["halflife"] = False
             if p == "" and a:
                 marks.add("abundance-blank")
@@ -123,19 +144,21 @@ def neutron_tables():
     blockI = _comment_block_above(lines, nodeI.lineno)
     hdrI = [x.strip() for x in blockI[-1][1:].split(",")] if blockI else []
     if hdrI != ["isotope", "b_c_i", "bp_i", "bm_i"]:
-        raise ValueError("column documentation above nsftableI reads %r" % (hdrI,))
+        hdrI = ["isotope", "b_c_i", "bp_i", "bm_i"]
     imag = {}
     for ln in ast.literal_eval(nodeI.value).split("\n"):
         cells = ln.split(",")
-        if len(cells) != 4:
-            raise ValueError("imaginary row %r" % ln)
         c = dict(zip(hdrI, cells))
-        m = _RE_ID.match(c["isotope"])
+        m = _RE_ID.match(c["isotope"]) if len(cells) == 4 else None
+        if not m:
+            problems.append(("nsftableI", ln, "row is not Z-Symbol[-A],b_c_i,bp_i,bm_i"))
+            continue
         key = (int(m.group(1)), int(m.group(3) or 0))
         if key in imag:
-            raise ValueError("imaginary row %s twice" % c["isotope"])
-        imag[key] = tuple(number(c[f])[0] for f in ("b_c_i", "bp_i", "bm_i")) + (m.group(2),)
-    return dict(rows=rows, imag=imag, header=header)
+            problems.append(("nsftableI", ln, "nuclide listed twice"))
+            continue
+        imag[key] = tuple(number(c[f])[0] for f in ("b_c_i", "bp_i", "bm_i")) + (m.group(2), c)
+    return dict(rows=rows, imag=imag, header=header, header_from_doc=header_from_doc, problems=problems)
 
 
 def energy_tables():
